@@ -16,6 +16,8 @@ import (
 	"io"
 	"net"
 	"strings"
+	"sync"
+	"sync/atomic"
 	"time"
 
 	"github.com/fatedier/frp/pkg/msg"
@@ -261,6 +263,132 @@ func writerNeverReads(g *hx.Gen, s *hx.Server) (detail string, stalled string) {
 	return detail, last
 }
 
+// clientHelloBytes: the first flight of a real TLS handshake with the given SNI.
+func clientHelloBytes(name string) []byte {
+	pr, pw := net.Pipe()
+	go func() {
+		_ = tls.Client(pw, &tls.Config{ServerName: name, InsecureSkipVerify: true}).Handshake()
+		pw.Close()
+	}()
+	b := make([]byte, 4096)
+	_ = pr.SetReadDeadline(time.Now().Add(500 * time.Millisecond))
+	n, _ := pr.Read(b)
+	pr.Close()
+	return b[:n]
+}
+
+// handoffChurn: an https and a tcpmux proxy are closed and registered again every few milliseconds (CloseProxy / NewProxy,
+// and once per round the whole session) while 8 users keep connecting to their routes: every user connection that is
+// routed while its listener closes is in the muxer's hand-off (pkg/util/vhost Muxer.handle -> Listener.accept).
+func handoffChurn(g *hx.Gen, c *child, s *hx.Server, d time.Duration) string {
+	hello := clientHelloBytes("hc.test")
+	connect := "CONNECT hm.test:80 HTTP/1.1\r\nHost: hm.test:80\r\n\r\n"
+	stop := make(chan struct{})
+	var users sync.WaitGroup
+	var nUser int64
+	for u := 0; u < 8; u++ {
+		users.Add(1)
+		go func(u int) {
+			defer users.Done()
+			for {
+				select {
+				case <-stop:
+					return
+				default:
+				}
+				port, payload := c.https, hello
+				if u%2 == 1 {
+					port, payload = c.tcpmux, []byte(connect)
+				}
+				conn, err := net.DialTimeout("tcp", net.JoinHostPort(c.addr, fmt.Sprint(port)), 300*time.Millisecond)
+				if err != nil {
+					time.Sleep(5 * time.Millisecond)
+					continue
+				}
+				atomic.AddInt64(&nUser, 1)
+				_, _ = conn.Write(payload)
+				_ = conn.SetReadDeadline(time.Now().Add(15 * time.Millisecond))
+				b := make([]byte, 64)
+				_, _ = conn.Read(b)
+				conn.Close()
+			}
+		}(u)
+	}
+	cycles := 0
+	for t0 := time.Now(); time.Since(t0) < d && c.alive(); {
+		p, _, err := s.Login(hx.LoginOpts{User: "hc"})
+		if err != nil || p == nil {
+			time.Sleep(10 * time.Millisecond)
+			continue
+		}
+		for k := 0; k < 12 && c.alive() && time.Since(t0) < d; k++ {
+			_, _ = p.NewProxy(&msg.NewProxy{ProxyName: "hc-https", ProxyType: "https", CustomDomains: []string{"hc.test"}})
+			_, _ = p.NewProxy(&msg.NewProxy{ProxyName: "hc-mux", ProxyType: "tcpmux", Multiplexer: "httpconnect", CustomDomains: []string{"hm.test"}})
+			time.Sleep(time.Duration(g.Intn(4000)) * time.Microsecond)
+			_ = p.CloseProxy("hc-https")
+			_ = p.CloseProxy("hc-mux")
+			cycles++
+			time.Sleep(time.Duration(g.Intn(2000)) * time.Microsecond)
+		}
+		_, _ = p.NewProxy(&msg.NewProxy{ProxyName: "hc-https", ProxyType: "https", CustomDomains: []string{"hc.test"}})
+		time.Sleep(time.Duration(g.Intn(3000)) * time.Microsecond)
+		p.Close() // the session ends with the proxy registered
+	}
+	close(stop)
+	users.Wait()
+	return fmt.Sprintf("%d close/register cycles of an https and a tcpmux proxy under %d user connections", cycles, atomic.LoadInt64(&nUser))
+}
+
+// refusedLoginsHeld: n logins with a wrong key; every peer reads the refusal and then just keeps its connection open.
+// Returns the connections (to be closed by the caller after the watchdog ran) and how many the server closed itself.
+func refusedLoginsHeld(s *hx.Server, n int) (string, []net.Conn) {
+	var mu sync.Mutex
+	var held []net.Conn
+	refused, closedByServer := 0, 0
+	var wg sync.WaitGroup
+	sem := make(chan struct{}, 16)
+	for i := 0; i < n; i++ {
+		wg.Add(1)
+		sem <- struct{}{}
+		go func() {
+			defer wg.Done()
+			defer func() { <-sem }()
+			conn, err := s.Dial()
+			if err != nil {
+				return
+			}
+			ts := time.Now().Unix()
+			_ = conn.SetDeadline(time.Now().Add(2 * time.Second))
+			if msg.WriteMsg(conn, &msg.Login{Version: "0.61.0", PrivilegeKey: util.GetAuthKey("wrong-token", ts), Timestamp: ts}) != nil {
+				conn.Close()
+				return
+			}
+			var resp msg.LoginResp
+			ok := msg.ReadMsgInto(conn, &resp) == nil && resp.Error != ""
+			mu.Lock()
+			if ok {
+				refused++
+			}
+			held = append(held, conn)
+			mu.Unlock()
+		}()
+	}
+	wg.Wait()
+	time.Sleep(300 * time.Millisecond)
+	mu.Lock()
+	defer mu.Unlock()
+	for _, h := range held { // has the server let go of it?
+		_ = h.SetReadDeadline(time.Now().Add(time.Millisecond))
+		b := make([]byte, 1)
+		if _, err := h.Read(b); err != nil {
+			if ne, isNet := err.(net.Error); !isNet || !ne.Timeout() {
+				closedByServer++
+			}
+		}
+	}
+	return fmt.Sprintf("%d logins with a wrong key, %d refused, peers keep the connections open; %d of %d closed by the server after 300 ms", n, refused, closedByServer, len(held)), held
+}
+
 func runServerDirected(cfg *hx.RunCfg, c *child, s *hx.Server, raceMode bool, record func(kind, typ, detail string, alive, wd bool),
 	crashed func(kind, detail string) bool, fails *[]map[string]any) {
 	scale := func(quick, thorough int) int {
@@ -311,6 +439,39 @@ func runServerDirected(cfg *hx.RunCfg, c *child, s *hx.Server, raceMode bool, re
 		}
 		record("directed:vhost-raw", names[k], detail, true, true)
 	}
+	// 1b. user connections in the muxer's hand-off while their proxy closes
+	if c.https > 0 && c.tcpmux > 0 {
+		d := time.Duration(scale(1500, 8000)) * time.Millisecond
+		detail := handoffChurn(g, c, s, d)
+		time.Sleep(30 * time.Millisecond)
+		if crashed("directed:vhost-handoff-churn", detail) {
+			return
+		}
+		record("directed:vhost-handoff-churn", "CloseProxy", detail, true, true)
+	}
+	// 1c. refused logins whose peers keep their connections open: more of them than the child has descriptors
+	if c.alive() && !raceMode { // a descriptor test: nothing for the race detector in it
+		detail, held := refusedLoginsHeld(s, 1100)
+		var werr error
+		for try := 0; try < 3; try++ {
+			if werr = watchdog(s); werr == nil {
+				break
+			}
+			time.Sleep(200 * time.Millisecond)
+		}
+		for _, h := range held {
+			h.Close()
+		}
+		if crashed("directed:refused-logins-held", detail) {
+			return
+		}
+		if werr != nil {
+			*fails = append(*fails, map[string]any{"key": "frps-wedged:descriptors-held-by-refused-logins", "what": "while the peers of refused logins keep their connections open frps serves nobody: " + werr.Error(),
+				"case": detail})
+		}
+		record("directed:refused-logins-held", "Login", detail, true, werr == nil)
+		time.Sleep(100 * time.Millisecond)
+	}
 	// 2. structured NAT-hole exchanges
 	n = scale(14, 150)
 	for i := 0; i < n && c.alive(); i++ {
@@ -323,6 +484,9 @@ func runServerDirected(cfg *hx.RunCfg, c *child, s *hx.Server, raceMode bool, re
 	}
 	// 3. a peer that writes without reading
 	n = scale(2, 8)
+	if raceMode && cfg.Tier != "thorough" {
+		n = 0 // the quick race pass leaves this one to the plain barrage
+	}
 	for i := 0; i < n && c.alive(); i++ {
 		detail, stalled := writerNeverReads(g, s)
 		if crashed("directed:writer-never-reads", detail) {
